@@ -37,6 +37,13 @@ def run_jobs(jobs: list, *, n_devices: int = 1, nproc: int | None = None, timeou
                     out[j] = tr
     jobs2, traces = [], []
     for job, trs in zip(jobs, out):
+        if job.get("group"):
+            # solvers that ran at the same time in threads of one process: one trace per member
+            for member, tr in zip(job["group"], trs):
+                jobs2.append(member)
+                tr["inject_no"] = 0
+                traces.append(tr)
+            continue
         for q, tr in enumerate(trs):
             jobs2.append(job)
             tr["inject_no"] = q
